@@ -38,6 +38,15 @@ theorem envOfCbor_cborOf (e : Env) (hi : Inv h e) (hs : EncShape e) :
 example : envOfCbor CodecEx.toyH (cborOf CodecEx.sample) = .ok CodecEx.sample :=
   envOfCbor_cborOf _ _ CodecEx.sample_inv CodecEx.sample_encShape
 
+/- `EncShape` cannot be dropped: `Inv` (as defined in Model/Inv.lean) admits a compressed
+element whose checksum is not a `u32`, and that one does not round-trip -/
+example : Inv CodecEx.toyH (.compressed ⟨2 ^ 32, 0, []⟩ ⟨5⟩) ∧
+    envOfCbor CodecEx.toyH (cborOf (.compressed ⟨2 ^ 32, 0, []⟩ ⟨5⟩)) = .err "dep:OutOfRange" := by
+  refine ⟨⟨by simp [WF], by simp [Canon, Digest.Valid]⟩, ?_⟩
+  simp only [cborOf, envOfCbor_tagged, compMsgCbor, decodeCompressed,
+    digestOfCbor_digestCbor (d := ⟨5⟩) (by simp [Digest.Valid])]
+  rfl
+
 /-- the list form (the assertion elements of a node) -/
 theorem envOfCborList_cborOfList (as : List Env) (hi : ∀ a ∈ as, Inv h a)
     (hs : ∀ a ∈ as, EncShape a) : envOfCborList h (cborOfList as) = .ok as :=
